@@ -70,7 +70,10 @@ rounded_udiv_128_by_48 (uint64_t  hi,
                         uint64_t *result_hi)
 {
     uint64_t tmp, remainder, result_lo;
-    assert(div < ((uint64_t)1 << 48));
+    /* the signed wrapper passes |div| for a 49-bit signed divisor, so 2^48
+     * itself (from -2^48) is a legal value and is handled correctly below
+     */
+    assert(div <= ((uint64_t)1 << 48));
 
     remainder = hi % div;
     *result_hi = hi / div;
